@@ -504,6 +504,8 @@ def input_forms(ctx, deep):
         plan = [("int_list", basis), ("int_array", basis), ("real_list", realv), ("real_array", signs), ("tuple", cplx),
                 ("read_only", cplx), ("read_only", basis)]
         for cls in classes:
+            if n < 2 and cls == "SVDInitialize":
+                continue                    # defined from two qubits on (as in the main sweep)
             for form, vec in plan:
                 ctx.monitor("form:" + form)
                 ctx.count(f"{cls.replace('Initialize', '')}:input_form", key=(cls, form, n, vec.tobytes()), nontrivial=n >= 2,
